@@ -196,6 +196,51 @@ def ownership_items(tier):
     return out
 
 
+def shared_default_items(tier):
+    """F5 (C13/C14/C17): a mutable object defined in a class body is one object for all instances.  No class of the package hands
+    such an object out through `self` (return self.X in a method / property) or mutates it through `self` unless every __init__
+    path of the class rebinds self.X first - otherwise two networks / reactions built in one process share a table."""
+    out, bad, n = [], [], 0
+    for rel, tree in _files():
+        for c in [x for x in ast.walk(tree) if isinstance(x, ast.ClassDef)]:
+            lits = {}
+            for st in c.body:
+                tg, val = (st.targets[0], st.value) if isinstance(st, ast.Assign) else ((st.target, st.value) if isinstance(st, ast.AnnAssign) and st.value is not None else (None, None))
+                if tg is not None and isinstance(tg, ast.Name) and _is_mutable_literal(val) and not tg.id.isupper():
+                    lits[tg.id] = st.lineno
+            if not lits:
+                continue
+            init = next((m for m in c.body if isinstance(m, ast.FunctionDef) and m.name == "__init__"), None)
+            always = set()
+            if init is not None:
+                # attributes rebound unconditionally at the top level of __init__ (not inside if / for / try)
+                for st in init.body:
+                    if isinstance(st, ast.Assign):
+                        for t in st.targets:
+                            if isinstance(t, ast.Attribute) and isinstance(t.value, ast.Name) and t.value.id == "self":
+                                always.add(t.attr)
+            for name, line in lits.items():
+                n += 1
+                if name in always or (rel, c.name, name) in INVENTORY:
+                    continue
+                uses = []
+                for m in [x for x in c.body if isinstance(x, ast.FunctionDef)]:
+                    for node in ast.walk(m):
+                        if isinstance(node, ast.Return) and isinstance(node.value, ast.Attribute) and isinstance(node.value.value, ast.Name) and node.value.value.id == "self" and node.value.attr == name:
+                            uses.append(f"{m.name} returns self.{name}")
+                        if isinstance(node, ast.Call) and isinstance(node.func, ast.Attribute) and node.func.attr in MUTATORS and isinstance(node.func.value, ast.Attribute) \
+                                and isinstance(node.func.value.value, ast.Name) and node.func.value.value.id == "self" and node.func.value.attr == name:
+                            uses.append(f"{m.name} calls self.{name}.{node.func.attr}()")
+                        if isinstance(node, (ast.Assign, ast.AugAssign)):
+                            for t in (node.targets if isinstance(node, ast.Assign) else [node.target]):
+                                if isinstance(t, ast.Subscript) and isinstance(t.value, ast.Attribute) and isinstance(t.value.value, ast.Name) and t.value.value.id == "self" and t.value.attr == name:
+                                    uses.append(f"{m.name} stores into self.{name}[...]")
+                if uses:
+                    bad.append(f"{rel}:{line} {c.name}.{name} is a class-level mutable object and {uses[0]} (not rebound on every __init__ path)")
+    out.append(_item("frame/no-class-level-mutable-object-used-as-instance-state", not bad, "; ".join(bad)[:600] or f"{n} class-level mutable objects, none handed out or mutated through self without being rebound in __init__"))
+    return out
+
+
 def table_setter_items(tier):
     """F4 (C08/C17): Species.set_known_elements / set_known_pseudoelements clear the class-level list and refill it from their argument,
     so their precondition is that the argument is not that list itself.  Every call site in the package must pass something that
@@ -223,7 +268,7 @@ def table_setter_items(tier):
 
 
 if __name__ == "__main__":
-    for it in ownership_items("quick") + table_setter_items("quick"):
+    for it in ownership_items("quick") + table_setter_items("quick") + shared_default_items("quick"):
         print(it["status"], it["name"], it["detail"][:300])
     for it in state_frame_items("quick"):
         print(it["status"], it["name"], it["detail"][:300])
